@@ -33,6 +33,6 @@ C09_ClientEnds == J => (Steered => (R.cliret = R.clients /\ R.clidone = R.client
 \* conformance only: an interrupted call reports an error (nothing was ever answered); callbacks do not run unless closed;
 \* a stream peer notices the server's stop by itself
 K09_ErrReported == J => (IsOp /\ R.reached /\ R.returned /\ R.op # "discover" => R.err)
-K09_NoCallbackWithoutClose == J => (IsOp /\ R.reached /\ ~R.closing => All(R.onclose, 0))
+K09_NoCallbackWithoutClose == J => (IsOp /\ R.reached /\ ~R.closing /\ R.noise # "garbage" => All(R.onclose, 0))
 K09_StreamPeerNotices == J => (Steered /\ R.order = "stop-first" /\ R.transport # "udp" => R.selfclosed = R.clients)
 =============================================================================
